@@ -166,14 +166,24 @@ var vuniverse = []string{"a", "a@", "a!", "b", "a@1"}
 func vDrain(db *DB) {
 	vf.Drain()
 	if vf.Native() {
-		for i := 0; i < 600000; i++ { // up to 60 s under heavy machine load; returns as soon as the engine is idle
+		// wait while the background work makes progress: up to 60 s in total (heavily loaded
+		// machines), but give up when nothing changed for 3 s (a stuck queue is a finding of
+		// the assertions that follow, not a reason to wait)
+		last, lastChange := -1, time.Now()
+		for start := time.Now(); time.Since(start) < 60*time.Second; {
 			db.mu.RLock()
 			n := db.immutables.Len()
 			db.mu.RUnlock()
-			if n == 0 && len(db.flushC) == 0 {
+			q := len(db.flushC)
+			if n == 0 && q == 0 {
 				return
 			}
-			time.Sleep(100 * time.Microsecond)
+			if n*1000+q != last {
+				last, lastChange = n*1000+q, time.Now()
+			} else if time.Since(lastChange) > 3*time.Second {
+				return
+			}
+			time.Sleep(200 * time.Microsecond)
 		}
 	}
 }
